@@ -26,7 +26,10 @@ def one(name):
     return name, verdict
 
 
-names = sorted(n for n in os.listdir(os.path.join(ROOT, "seeded")) if os.path.exists(os.path.join(ROOT, "seeded", n, "patch.diff")))
+import sys      # noqa: E402
+ONLY = re.compile(sys.argv[1]) if len(sys.argv) > 1 else None       # optional: a regular expression on the seed names (e.g. 'C..-(19|20)$')
+names = sorted(n for n in os.listdir(os.path.join(ROOT, "seeded")) if os.path.exists(os.path.join(ROOT, "seeded", n, "patch.diff"))
+               and (ONLY is None or ONLY.search(n)))
 tally = {}
 with ThreadPoolExecutor(int(os.environ.get("SEED_JOBS", "4"))) as ex:
     for name, v in ex.map(one, names):
